@@ -69,7 +69,7 @@ func cmdLemmas(mod, pkgPath, only, dump string) int {
 		fmt.Fprintln(os.Stderr, "no package", pkgPath)
 		return 2
 	}
-	specs, err := LoadSpecs(prog.Dir+"/"+relDir(mod, pkgPath), pkgPath, pp.Name)
+	specs, err := LoadSpecsFor(prog, mod, pkgPath)
 	if err != nil {
 		fmt.Fprintln(os.Stderr, err)
 		return 2
@@ -128,8 +128,7 @@ func cmdVC(mod, pkgPath, fnName, dump string) int {
 		fmt.Fprintln(os.Stderr, err)
 		return 2
 	}
-	pp := prog.PPkgs[pkgPath]
-	specs, err := LoadSpecs(prog.Dir+"/"+relDir(mod, pkgPath), pkgPath, pp.Name)
+	specs, err := LoadSpecsFor(prog, mod, pkgPath)
 	if err != nil {
 		fmt.Fprintln(os.Stderr, err)
 		return 2
